@@ -233,6 +233,10 @@ def run(R, env):
                                     if not (v_[0] == "field" and v_[2] == n_ and loaded_pkt(v_[1])):
                                         ed[(n_,)] = v_
                                 ed.update(d0)
+                        if ed is not None and ("status",) in ed and ed[("status",)][0] != "agg":
+                            # the status may come out of a helper (`outcome.refundable_status()`): its value in this world
+                            from engine.analysis import resolve_terms as _rt7
+                            ed[("status",)] = _rt7(prog, ed[("status",)], 2, None, wr[0].get("assumptions", ()))
                         good = ed is not None and set(ed) == {("status",)} and ed[("status",)][0] == "agg" and ed[("status",)][2] == status
                     R.ob("C07.R4", "%s:marks-packet-%s" % (name, status), good, "on %s the writes are %s; expected only save(sequence, loaded packet with status := %s)" % (wn, [(ns_of(prog, o["args"][0]), o["op"], fmt(o["args"][-1])[:120]) for o in wr], status), fn=ck)
         R.floor("C07.R4", "ack/timeout callbacks reached from sudo", n_cb, 2)
